@@ -104,6 +104,9 @@ func dfsScenarios() []*rpcsim.Scenario {
 		one("dfs-result-cancel-fclose", 1, res0, cancel, fclose),
 		one("dfs-result-dup-cancel", 1, res0, res1, cancel),
 		one("dfs-result-foreign-fclose", 1, res0, frn3, fclose),
+		one("dfs-wire-gzip-error-cancel", 1, rpcsim.Option{Kind: "nerr", ID: 2, Target: 1, Val: 400, Shape: rpcsim.ShapeResultGz}, cancel),
+		one("dfs-wire-container-result-ack", 1, rpcsim.Option{Kind: "nres", ID: 0, Target: 1, Val: 100, Shape: rpcsim.ShapeContainerGz},
+			rpcsim.Option{Kind: "ack", IDs: []int64{90, 1}, Shape: rpcsim.AckSplit}),
 		two,
 	}
 }
